@@ -84,4 +84,11 @@ def obsOf (c : Cap) : Obs :=
 snapshot, while the cap was unchanged and every change applied -/
 def intervalOK (maxOpen : Nat) (capNow : Int) : Bool := decide ((maxOpen : Int) ≤ capNow)
 
+/-- listener harnesses, history rule: `base` = connections accepted at the first settled snapshot after a
+`SetMaxCount` that left a shrink parked; while that shrink is still parked (and no further `SetMaxCount` was
+issued) at most ONE more connection is accepted — the one `Accept` that was already ahead of the shrink in
+the FIFO queue (or already held its unit); every later `Accept` queues behind the parked shrink
+(`Props/C17.lean: new_accept_queues_behind_parked_shrink`). -/
+def acceptsWhileParkedOK (base accepted : Nat) : Bool := decide (accepted ≤ base + 1)
+
 end EgVerif.ConnCap
